@@ -1,12 +1,15 @@
 (* Extraction of the scaling model (Scale.v) and the error/wrapper model (ErrorModel.v) for bin/oracle_scale. *)
-From Clip Require Import base.Geom base.FloatModel model.Scale model.ErrorModel.
+From Clip Require Import base.Geom.
+From Clip Require Import base.FloatModel.
+From Clip Require Import model.Scale.
+From Clip Require Import model.ErrorModel.
 Require Import ExtrOcamlBasic ExtrOCamlFloats ExtrOCamlInt63.
 Extraction Language OCaml.
 Extraction "m.ml"
   Z2F F_decode F2Z_round in_i64
   round_cast scale_coord scale_pt scale_path scale_paths_raw descale_coord descale_path descale_paths scale_rect
   bounds_of range_ok pow10_spec pow2f ilogb_model scaleD_model scaleD_spec log2_above_pow10 inv_of spec_scale
-  in_domain_C16 in_coord_range prod_within is_finite MAX_COORD max_coord min_coord
+  in_domain_C16 in_coord_range range_guard_check has_nan prod_within is_finite MAX_COORD max_coord min_coord
   check_precision_range scale_path_E descale_path_E scale_paths_E descale_paths_E make_path to_outcome
   clipperD_ctor clipperD_run booleanopD union1D inflateD rectclipD minkowskiD trimcollinearD polypathD_child
   export_booleanop64_pre export_booleanopD_pre export_inflateD_pre export_rectD_pre
